@@ -99,3 +99,200 @@ def _branch_tag(g, node) -> str:
             t = ast.unparse(x.test)
             return "if-" + "".join(ch for ch in t if ch.isalnum() or ch in "_.")[:40]
     return "body"
+
+
+def peer_connection_ownership(ctx: Ctx, rule: str):
+    """Peer.connection is set only when unset and cleared only by its owner."""
+    from ..atoms import Atomizer
+    model = ctx.model
+    nc = model.cls("node.node", "Node")
+    ctx.rule(rule, "Peer.connection is set only when unset and cleared only by its owner",
+             floor=3)
+    at_cache = {}
+    for f in nc.all_funcs:
+        sets = []
+        for n in A.walk_no_nested(f.node):
+            if isinstance(n, ast.Assign):
+                for t in n.targets:
+                    if isinstance(t, ast.Attribute) and t.attr == "connection":
+                        sets.append((n, t))
+        if not sets:
+            continue
+        g = cfg_of(f)
+        at = Atomizer(model, f.module, nc)
+        for st, t in sets:
+            recv = ast.unparse(t.value)
+            node = [n for n in g.nodes if n.ast is st][0]
+            is_clear = isinstance(st.value, ast.Constant) and st.value.value is None
+            cons = f"{f.qualname}:{'clear' if is_clear else 'set'}({recv}.connection)"
+            ctx.inst(cons, sample={"where": g.loc(node), "stmt": node.text(80)})
+            subj = f"{recv}.connection"
+            if is_clear:
+                owner = [a.arg for a in f.node.args.args][1] if len(f.node.args.args) > 1 else None
+
+                def pred(a):
+                    if a.subject == subj and a.op == "is" and a.value is None:
+                        return True
+                    if a.subject == subj and a.op in ("is-expr",) and a.value == owner:
+                        return True
+                    if a.op == "==x" and {a.subject, a.value} == {subj, owner}:
+                        return True
+                    return None
+                if not at.guarded(g, node, pred):
+                    ctx.fail(cons, g.loc(node),
+                             f"{subj} is cleared without checking that the removed connection "
+                             f"`{owner}` is the peer's own (`{subj} is {owner}`): removing a second "
+                             f"connection of an already connected peer orphans the live one "
+                             f"(Peer.connection None although a ready connection exists; the peer "
+                             f"is dialled again)")
+            else:
+                def pred(a):
+                    if a.subject == subj and a.op == "truthy":
+                        return False
+                    if a.subject == subj and a.op == "is" and a.value is None:
+                        return True
+                    return None
+                if not at.guarded(g, node, pred):
+                    ctx.fail(cons, g.loc(node),
+                             f"{subj} is overwritten although the peer may already have a live "
+                             f"connection: the earlier connection loses its owner record; when "
+                             f"the newer one closes the peer counts as disconnected")
+
+
+
+def disconnect_record(ctx: Ctx, rule: str):
+    """The disconnect record is written with the owner clear and reset on assignment."""
+    from ..atoms import Atomizer
+    from ..srcmodel import AnalysisError
+    model = ctx.model
+    nc = model.cls("node.node", "Node")
+    add = nc.methods.get("_add_peer_connection")
+    rem = nc.methods.get("remove_peer_connection")
+    asg = nc.methods.get("_assign_peer_connection")
+    if add is None or rem is None or asg is None:
+        raise AnalysisError("Node._add_peer_connection/remove_peer_connection/_assign_peer_connection not found")
+    ctx.use(add, rem, asg)
+    # ---------------- R4 disconnect record --------------------------------------
+    ctx.rule(rule, "the disconnect record is written with the owner clear and reset on "
+                       "assignment", floor=3)
+    g = cfg_of(rem)
+    at = Atomizer(model, rem.module, nc)
+    clears = [n for n in g.nodes if n.kind == "stmt" and isinstance(n.ast, ast.Assign)
+              and any(isinstance(t, ast.Attribute) and t.attr == "connection" for t in n.ast.targets)]
+    ld = [n for n in g.nodes if n.kind == "stmt" and any(
+        isinstance(t, ast.Attribute) and t.attr == "last_disconnect" for t in n.stores())]
+    dr = [n for n in g.nodes if n.kind == "stmt" and any(
+        isinstance(t, ast.Attribute) and t.attr == "disconnect_reason" for t in n.stores())]
+    ctx.inst("remove_peer_connection:last_disconnect")
+    if not clears or not ld or not all(g.always_followed(c, ld) or g.dominated(c, ld) for c in clears):
+        ctx.fail("remove_peer_connection:last_disconnect", rem.loc(),
+                 "clearing Peer.connection is not accompanied by storing last_disconnect: the "
+                 "reconnect timer of a persistent peer never starts")
+    elif not all("time" in ast.unparse(n.ast.value) for n in ld):
+        ctx.fail("remove_peer_connection:last_disconnect", g.loc(ld[0]), "last_disconnect is not a time stamp")
+    ctx.inst("remove_peer_connection:disconnect_reason")
+    rparams = [a.arg for a in rem.node.args.args]
+    ok = False
+    for n in dr:
+        recv = ast.unparse([t for t in n.stores() if isinstance(t, ast.Attribute)][0].value)
+        v = n.ast.value
+        if isinstance(v, ast.Name) and v.id in rparams and at.guarded(
+                g, n, lambda a, s=f"{recv}.disconnect_reason": True
+                if (a.subject == s and a.op == "is" and a.value is None) else
+                (False if (a.subject == s and a.op == "truthy") else None)):
+            ok = True
+    if not ok or not all(g.always_followed(c, ld) for c in clears):
+        ctx.fail("remove_peer_connection:disconnect_reason", rem.loc(),
+                 "disconnect_reason is not stored from the caller's reason when (and only when) "
+                 "it is still unset")
+    for f in (add, asg):
+        g2 = cfg_of(f)
+        sets = [n for n in g2.nodes if n.kind == "stmt" and isinstance(n.ast, ast.Assign)
+                and any(isinstance(t, ast.Attribute) and t.attr == "connection"
+                        for t in n.ast.targets)
+                and not (isinstance(n.ast.value, ast.Constant) and n.ast.value.value is None)]
+        resets = [n for n in g2.nodes if n.kind == "stmt" and isinstance(n.ast, ast.Assign)
+                  and any(isinstance(t, ast.Attribute) and t.attr == "disconnect_reason"
+                          for t in n.ast.targets)
+                  and isinstance(n.ast.value, ast.Constant) and n.ast.value.value is None]
+        cons = f"{f.qualname}:reset-disconnect-reason"
+        ctx.inst(cons)
+        for s in sets:
+            if not (g2.dominated(s, resets) or g2.always_followed(s, resets)):
+                ctx.fail(cons, g2.loc(s), "a connection is assigned to the peer without resetting "
+                         "disconnect_reason: a peer that was disconnected by DPR is never "
+                         "re-dialled after a later loss")
+
+
+
+def ready_state_stores(ctx: Ctx, rule: str):
+    """Typestate: a connection enters a ready state only through the ready flag
+    (after a successful capabilities exchange) or through the DWR/DWA toggles,
+    each guarded by the state it must come from."""
+    from ..atoms import Atomizer, must_facts
+    model = ctx.model
+    peer_mod = model.module("node.peer")
+    READY = frozenset(model.fold_name(peer_mod, "PEER_READY_STATES"))
+    PREADY = model.fold_name(peer_mod, "PEER_READY")
+    WAITING = model.fold_name(peer_mod, "PEER_READY_WAITING_DWA")
+    ctx.rule(rule, "stores of a ready state: only _flag_connection_as_ready, and the DWR/DWA "
+                   "toggles guarded by the state they come from", floor=3)
+    for f in model.all_funcs():
+        if ".node" not in f.module.name:
+            continue
+        for n in A.walk_no_nested(f.node):
+            if not isinstance(n, ast.Assign):
+                continue
+            for t in n.targets:
+                if not (isinstance(t, ast.Attribute) and t.attr == "state"):
+                    continue
+                v = model.try_fold(n.value, f.module, f.cls)
+                if v not in READY:
+                    continue
+                recv = ast.unparse(t.value)
+                cons = f"{f.qualname}:state={'READY' if v == PREADY else 'READY_WAITING_DWA'}"
+                g = cfg_of(f)
+                node = [x for x in g.nodes if x.ast is n][0]
+                at = Atomizer(model, f.module, f.cls)
+                facts = must_facts(g, at, node)
+                ctx.use(f)
+                ctx.inst(cons, sample={"where": g.loc(node), "facts": sorted(map(str, facts))[:6]})
+                if f.name == "_flag_connection_as_ready":
+                    callers = [c for c in call_sites(model, f.name)]
+                    bad = [c for c in callers if c.func.name not in ("receive_cer", "receive_cea")]
+                    if bad:
+                        ctx.fail(cons + "#caller", bad[0].where, f"{f.name} is called from "
+                                 f"{bad[0].func.qualname}, outside the capabilities exchange")
+                    continue
+                if v == PREADY:
+                    ok = (f"{recv}.state", "==", WAITING, True) in facts
+                    want = "state == READY_WAITING_DWA"
+                else:
+                    ok = (f"{recv}.state", "in", READY, True) in facts or \
+                        (f"{recv}.state", "==", PREADY, True) in facts
+                    want = "state in PEER_READY_STATES"
+                if not ok:
+                    ctx.fail(cons, g.loc(node),
+                             f"`{ast.unparse(n)}` in {f.qualname} is not guarded by {want}: a "
+                             f"connection that is CONNECTED (before its capabilities exchange), "
+                             f"DISCONNECTING (after a DPR) or CLOSING can become ready and is "
+                             f"offered for routing again")
+
+
+def ready_constants(ctx: Ctx, rule: str):
+    model = ctx.model
+    peer_mod = model.module("node.peer")
+    ctx.rule(rule, "PEER_READY_STATES is exactly {READY, READY_WAITING_DWA}; the seven states "
+                   "are pairwise distinct", floor=1)
+    names = ["PEER_CONNECTING", "PEER_CONNECTED", "PEER_READY", "PEER_READY_WAITING_DWA",
+             "PEER_DISCONNECTING", "PEER_CLOSING", "PEER_CLOSED"]
+    vals = {n: model.fold_name(peer_mod, n) for n in names}
+    ready = set(model.fold_name(peer_mod, "PEER_READY_STATES"))
+    ctx.inst("PEER_READY_STATES", sample={"ready": sorted(ready), "states": vals})
+    if len(set(vals.values())) != len(vals):
+        ctx.fail("PEER_*:distinct", peer_mod.relpath + ":1", f"connection state constants collide: {vals}")
+    if ready != {vals["PEER_READY"], vals["PEER_READY_WAITING_DWA"]}:
+        ctx.fail("PEER_READY_STATES", peer_mod.relpath + ":1",
+                 f"PEER_READY_STATES = {sorted(ready)} is not exactly (PEER_READY, "
+                 f"PEER_READY_WAITING_DWA): connections that have not completed the capabilities "
+                 f"exchange or are disconnecting are routed to")
